@@ -250,6 +250,55 @@ def outcome(thunk):
     return {"ok": canon_map([[k, enc(v)] for k, v in r.items() if not unprovided(v)])}
 
 
+KNOWN_KINDS = {"ParseError", "AbsenceError", "ExceedError", "TupleExceedError", "ConstraintError",
+               "OneOfViolatedError", "NegateViolatedError", "CollectedParseError"}
+
+
+def _kind(e):
+    """error class as the model names it: the classes the error sites create, `other` for what a converter raised"""
+    n = type(e).__name__
+    return n if n in KNOWN_KINDS else "other"
+
+
+def outcome_type(thunk):
+    """a bare type called on a value: the errors of that level, in order"""
+    from utype import exc
+    try:
+        r = thunk()
+    except exc.CollectedParseError as e:
+        return {"err": "collected", "errors": [[_kind(x), _item(x)] for x in e.errors]}
+    except exc.ParseError as e:
+        return {"err": "raw", "errors": [[_kind(e), _item(e)]]}
+    except Exception as e:
+        return {"escape": type(e).__name__}
+    return {"ok": enc(r)}
+
+
+def impl_type(case):
+    """kind=type: `type_transform(value, T, options)` in the five modes"""
+    from utype import type_transform
+    o = case["opts"]
+    try:
+        T = build_type(case["type"])
+    except Exception as e:
+        return {"config_error": f"{type(e).__name__}: {e}"[:200]}
+    v = dec(case["value"])
+    out = {"runs": [outcome_type(lambda m=m: type_transform(v, T, options=make_options(o, m))) for m in MODES]}
+    try:
+        cons_table: list = []
+        ty = resolve(T, cons_table)
+        opt_add = resolve(addition_type(o["addition"]), cons_table) if isinstance(o.get("addition"), dict) else None
+        cl = Closure(o, opt_add)
+        cl.need(ty, {vkey(case["value"]): case["value"]}, {(False, False)})
+        out["resolved_type"] = strip(ty)
+        out["ropts"] = {"addition": {"typed": strip(opt_add)} if opt_add is not None else
+                        (None if o.get("addition", "unset") == "unset" else o["addition"]), "addTy": None}
+        out["tables"] = {"conv": list(cl.conv.values()), "exact": list(cl.exact.values()), "constraints": cons_table}
+    except Unmodelled as e:
+        out["unmodelled"] = str(e)
+    return out
+
+
 def _item(e):
     it = getattr(e, "item", None)
     if isinstance(it, str) and it.startswith("**") and ":" in it:
@@ -473,6 +522,8 @@ def impl(case):
     warnings.simplefilter("ignore")
     if case.get("kind") == "ctx":
         return impl_ctx(case)
+    if case.get("kind") == "type":
+        return impl_type(case)
     api, decl, o, data = case["api"], case["decl"], case["opts"], case["data"]
     args_j, var, kwty = case.get("args") or [], case.get("var"), case.get("kwty")
     optmode = case.get("optmode", "runtime")
@@ -882,6 +933,20 @@ def make_positional(rng, case):
     case["data"] = [[k, v] for k, v in case["data"] if k in data]
 
 
+def gen_type_case(rng):
+    """a bare type on one value: makes the error list of every nested level visible at the top"""
+    ty = gen_ty(rng, rng.choice([1, 2, 2, 3]))
+    while "schema" in json.dumps(ty):
+        ty = gen_ty(rng, rng.choice([1, 2, 2, 3]))
+    o = {"addition": rng.choice(["unset", "unset", False, True])}
+    if rng.random() < 0.12:
+        o["addition"] = gen_addty(rng)
+    for k in ("invalid_items", "invalid_keys", "invalid_values"):
+        if rng.random() < 0.2:
+            o[k] = rng.choice(POLICIES)
+    return {"kind": "type", "type": ty, "opts": o, "value": gen_val(rng, ty, good=rng.random() < 0.35)}
+
+
 def gen_ctx_case(rng):
     mode = rng.choice(MODES + [[True, 4]])
     ops = []
@@ -973,8 +1038,10 @@ class C10(Check):
         if tier == "thorough":
             out += exhaustive_cases()
         nctx = max(50, n // 12)
+        ntype = n // 6
         out += [gen_ctx_case(rng) for _ in range(nctx)]
-        out += [gen_case(rng) for _ in range(n - nctx)]
+        out += [gen_type_case(rng) for _ in range(ntype)]
+        out += [gen_case(rng) for _ in range(n - nctx - ntype)]
         return out
 
     # the model line needs the tables measured by the adapter: run the implementation first
@@ -1013,6 +1080,12 @@ class C10(Check):
     def model_line2(self, case, io):
         if case.get("kind") == "ctx":
             return {"ctx": case["ctx"], "mode": case["mode"]}
+        if case.get("kind") == "type":
+            if not isinstance(io, dict) or "resolved_type" not in io:
+                return None
+            t = io["tables"]
+            return {"type": io["resolved_type"], "opts": norm_opts(case["opts"], io["ropts"]), "value": case["value"],
+                    "modes": MODES, "conv": t["conv"], "exact": t["exact"], "constraints": t["constraints"]}
         if not isinstance(io, dict) or "resolved" not in io:
             return None
         t = io["tables"]
@@ -1040,6 +1113,22 @@ class C10(Check):
         if mo.get("miss"):
             return "model asked for a conversion the implementation never needs (prim-miss)"
         m = mo["model"]
+        if case.get("kind") == "type":
+            for mode, a, b in zip(MODES, io["runs"], m["runs"]):
+                if "escape" in a:
+                    if "ok" in b:
+                        return f"mode {mode}: impl escapes {a['escape']} but model accepts"
+                    continue
+                if "ok" in a or "ok" in b:
+                    if a != b:
+                        return f"mode {mode}: impl={a} model={b}"
+                    continue
+                # the error list of this level: classes in order; items where the model names one
+                ea, eb = a["errors"], b["errors"]
+                if a["err"] != b["err"] or len(ea) != len(eb) or any(
+                        x[0] != y[0] or (y[1] is not None and x[1] != y[1]) for x, y in zip(ea, eb)):
+                    return f"mode {mode}: error list of the type differs: impl={a} model={b}"
+            return None
         for mode, a, b in zip(MODES, io["runs"], m["runs"]):
             if "escape" in a:
                 if "ok" in b:
@@ -1070,6 +1159,15 @@ class C10(Check):
     def spec(self, case, io, mo):
         """the property, evaluated on what the implementation returned"""
         if case.get("kind") == "ctx" or "config_error" in io:
+            return None
+        if case.get("kind") == "type":
+            ff = io["runs"][0]
+            for mode, r in zip(MODES[1:], io["runs"][1:]):
+                if ("ok" in ff) != ("ok" in r):
+                    return (f"type verdict differs: fail-fast {'accepts' if 'ok' in ff else 'rejects'} but "
+                            f"collect_errors=True,max_errors={mode[1]} {'accepts' if 'ok' in r else 'rejects'}")
+                if "ok" in ff and ff["ok"] != r["ok"]:
+                    return f"type value differs: fail-fast {ff['ok']} vs collect_errors=True,max_errors={mode[1]} {r['ok']}"
             return None
         if "runs" not in io:
             return f"adapter returned no runs: {io}"
@@ -1114,6 +1212,9 @@ class C10(Check):
             return None
         if not isinstance(io, dict) or "runs" not in io:
             return None
+        if case.get("kind") == "type":
+            # non-trivial: the value is rejected (an error list is compared)
+            return json.dumps(["type", case["type"], case["opts"], case["value"]], sort_keys=True) if "ok" not in io["runs"][0] else None
         if failing_items(io) or any(f.get("on_error") for f in case["decl"]):
             return json.dumps([case["api"], case["decl"], case["opts"], case["data"]], sort_keys=True)
         return None
@@ -1127,6 +1228,9 @@ class C10(Check):
             return "config-error"
         if "runs" not in io:
             return "adapter-failure"
+        if case.get("kind") == "type":
+            r = io["runs"][1]
+            return ("unmodelled/" if "unmodelled" in io else "") + "type/" + ("ok" if "ok" in r else "escape" if "escape" in r else f"errors={min(len(r['errors']), 3)}")
         nfail = len(failing_items(io))
         s = json.dumps(case["decl"])
         combs = "".join(op for op in "&|^~" if f'"comb": "{op}"' in s)
